@@ -7,7 +7,8 @@
     [J] is the record of the thirteen "junk" classifiers (emacs / vim mode lines, cvs
     keywords, comments, old_format_re1..8): the theorems hold for EVERY instance. *)
 From Coq Require Import String.
-From Verif Require Import Lib.Base Lib.Dec Lib.PyStr Changelog.Model Changelog.Spec Changelog.WfProofs.
+From Verif Require Import Lib.Base Lib.Dec Lib.PyStr Changelog.Model Changelog.Spec Changelog.WfProofs
+  Changelog.Lit Changelog.Check Changelog.WfCheckProofs Changelog.NormalCheckProofs.
 
 (** 1. wf_roundtrip.  For every text of the deb-changelog grammar -- any number of
        blocks, any package / version / distribution list / urgency / comment / key=value
@@ -80,8 +81,60 @@ Proof.
   vm_compute. split; [reflexivity|]. split; eexists; repeat split.
 Qed.
 
+(** 3. agree implies holds (the bridge between the correspondence and the theorems above).
+       For EVERY case of Changelog/Check.v (the module shared with C15; [CWf] is C04's
+       constructor): whenever the implementation behaved like the model, the property held --
+       under the side condition [judged] (Changelog/NormalCheckProofs.v), which for [CWf]
+       is [judged_wf] (Changelog/WfCheckProofs.v) and says, for texts of the grammar only:
+       (a) the input handed to the constructor is an input form of the judged text (the text as
+       str / bytes / file content, or its lines with or without their LF), and (b) every
+       observed block shows, through the public property, its raw version string.
+       Without it the statement is false ([C04_agree_alone_is_not_enough] below): [agree]
+       neither relates [inp] to [text] nor compares [ob_pubversion]. *)
+Theorem C04_agree_implies_holds :
+  forall c, judged c = true -> agree c = true -> holds c = true.
+Proof. exact agree_implies_holds. Qed.
+
+(** the [CWf] instance, with the side condition spelled out *)
+Theorem C04_agree_implies_holds_wf :
+  forall text inp gen tbl o,
+  judged_wf text inp o = true ->
+  agree (CWf text inp gen tbl o) = true -> holds (CWf text inp gen tbl o) = true.
+Proof. exact wf_case_holds. Qed.
+
+(** a one-block text given as its lines (one of them with its LF): judged, agrees, holds;
+    the same observation without the public version, or judged against another well-formed
+    text, agrees and does NOT hold -- and is not judged *)
+Definition C04_L (s : string) : lit := enclit (dec s).
+Definition C04_hdr : string := "p (1) u; urgency=low".
+Definition C04_trl : string := " -- a <b>  1 J 2001 1:00:00 +0000".
+Definition C04_text : lit :=
+  C04_L "p (1) u; urgency=low\00000a  * x\00000a -- a <b>  1 J 2001 1:00:00 +0000\00000a".
+Definition C04_text2 : lit :=
+  C04_L "q (1) u; urgency=low\00000a  * x\00000a -- a <b>  1 J 2001 1:00:00 +0000\00000a".
+Definition C04_obs (pv : option lit) : result ostate :=
+  Ok (mkOS [] [mkOB (Some (C04_L "p")) (Some (C04_L "1")) (Some (C04_L "u")) (Some (C04_L "low")) (C04_L "")
+                    [C04_L "  * x"] (Some (C04_L "a <b>")) (Some (C04_L "1 J 2001 1:00:00 +0000")) [] []
+                    false (C04_L "  ") pv] 0 (Ok C04_text)).
+
+Example C04_agree_alone_is_not_enough :
+  let good := CWf C04_text (LLines [C04_L C04_hdr; C04_L "  * x\00000a"; C04_L C04_trl]) None []
+                  (C04_obs (Some (C04_L "1"))) in
+  let nopub := CWf C04_text (LStr C04_text) None [] (C04_obs None) in
+  let other := CWf C04_text2 (LStr C04_text) None [] (C04_obs (Some (C04_L "1"))) in
+  (judged good = true /\ agree good = true /\ holds good = true)
+  /\ (agree nopub = true /\ holds nopub = false /\ judged nopub = false)
+  /\ (agree other = true /\ holds other = false /\ judged other = false).
+Proof. vm_compute. repeat split. Qed.
+
 Print Assumptions C04_wf_roundtrip.
 Print Assumptions C04_wf_roundtrip_any_mode.
 Print Assumptions C04_wf_blocks_exposed.
 Print Assumptions C04_wf_roundtrip_lines.
 Print Assumptions C04_wf_has_doc.
+(** The case type carries its texts as packed primitive 63-bit integers (Changelog/Lit.v), so the two
+    statements below mention [declit]: Print Assumptions lists Coq's primitive integer type and the
+    four operations [declit] uses (PrimInt63.int, lsr, land, leb, eqb) -- kernel primitives that come
+    with the case type itself -- and nothing else. *)
+Print Assumptions C04_agree_implies_holds.
+Print Assumptions C04_agree_implies_holds_wf.
